@@ -339,6 +339,44 @@ def correspondence(ctx):
         ctx.count("translated_parse_rfc_runs", len(pq)); ctx.traces += len(pq)
     else:
         ctx.note("TzRfcKernels not regenerated: %s" % (((ctx.lean.gen_report.get("kernels") or {}).get("TzRfcKernels") or {}).get("error"),))
+    if ((ctx.lean.gen_report.get("kernels") or {}).get("TzRfcKernels") or {}).get("ok"):
+        # the TRANSLATED tzical.get / tzical.keys on the dict the translated _parse_rfc leaves (C17.tzical_get_spec, get_after_parse)
+        gq, ge = [], []
+        for t in dict.fromkeys(texts):
+            if not all(ord(c) < 128 for c in t):
+                continue
+            e, obj = impl_parse(t)
+            if obj is None:
+                continue
+            for tzid in (None, "Test", "Second", "Third", "nope"):
+                try:
+                    z = obj.get(tzid)
+                    g = "ok none" if z is None else "ok %d" % list(obj._vtz.values()).index(z)
+                except Exception as ex:
+                    g = "err %s" % exc_kind(ex)
+                if g.startswith("ok"):
+                    g += " keys=[" + ",".join(hexs(k) for k in obj.keys()) + "]"
+                gq.append("tzgen.ical.get %s %s" % (hexs(t), "-" if tzid is None else hexs(tzid))); ge.append(g)
+        for q, e, g in zip(gq, ge, ctx.driver(gq)):
+            if e != g:
+                ctx.mismatch("tzgen.ical.get", q[:300], e[:300], g[:300])
+        ctx.count("translated_get_runs", len(gq)); ctx.traces += len(gq)
+        # the TRANSLATED _tzicalvtzcomp.__init__ (offsets as timedeltas, their difference, OverflowError outside the timedelta range)
+        from dateutil.tz import tz as _tzmod
+        cq, ce = [], []
+        for f, t2 in [(3600, 7200), (-18000, -14400), (0, 0), (-1, 1), (86399999999999, 0), (86400000000000, 0), (0, -86399999913601), (0, -86399999913600 - 86400),
+                      (10 ** 15, 5), (7200, -10 ** 16), (37800, 39600), (-12600, -9000)]:
+            try:
+                c = _tzmod._tzicalvtzcomp(f, t2, False)
+                us = lambda td: td // datetime.timedelta(microseconds=1)
+                g = "ok %d %d %d" % (us(c.tzoffsetfrom), us(c.tzoffsetto), us(c.tzoffsetdiff))
+            except Exception as ex:
+                g = "err %s" % exc_kind(ex)
+            cq.append("tzgen.ical.compinit %d %d" % (f, t2)); ce.append(g)
+        for q, e, g in zip(cq, ce, ctx.driver(cq)):
+            if e != g:
+                ctx.mismatch("tzgen.ical.compinit", q, e, g)
+        ctx.traces += len(cq)
     pending = []
     accepted = []
     for q, (kind, e), g in zip(reqs, exp, got):
